@@ -184,7 +184,8 @@ class Worker(object):
         self.plan = plan
         self.open_keys = open_keys
         self.stats = Stats()
-        self.failure = None       # (case, [violation json], source)
+        self.failure = None       # (case, [violation json], source): the most recent failure
+        self.failures = []        # every failure (plan["collect_all"] lets the strategies continue after one)
         self.t_end = time.time() + plan.get("budget_s", 240 if tier == "quick" else 1500)
 
     # -- one evaluation ------------------------------------------------------------------------
@@ -233,6 +234,7 @@ class Worker(object):
     def record_failure(self, case, new, source):
         v0 = new[0]
         self.failure = (v0.case if v0.case is not None else case, [v.to_json() for v in new], source)
+        self.failures.append(self.failure)
 
     # -- phases --------------------------------------------------------------------------------
     def run_regress(self):
@@ -272,8 +274,9 @@ class Worker(object):
         import hypothesis
         from hypothesis import given, settings, HealthCheck, Phase, Verbosity
         shrink_mode = self.plan.get("shrink", "hypothesis")
+        collect_all = bool(self.plan.get("collect_all"))
         for idx, (name, strat, n) in enumerate(self.plan.get("strategies", [])):
-            if self.failure:
+            if self.failure and not collect_all:
                 return
             if n <= 0:
                 continue
@@ -328,6 +331,7 @@ class Worker(object):
                     improved = True
                     break
         self.failure = (case, viols, source)
+        self.failures[-1] = self.failure
 
     def run_canaries(self, findings):
         res = []
@@ -356,12 +360,12 @@ class Worker(object):
         self.run_regress()
         if not self.failure:
             self.run_enumerations()
-        if not self.failure:
+        if not self.failure or self.plan.get("collect_all"):
             self.run_strategies()
         if self.failure and self.plan.get("shrink") == "ddmin":
             self.ddmin()
         res = self.stats.to_json()
-        res["failure"] = self.failure
+        res["failures"] = self.failures
         res["canaries"] = canaries
         return res
 
@@ -496,8 +500,7 @@ def run_check(mod, tier, seed, shards_override=None):
         by_source.update(r["by_source"])
         for name, c in r["enum_complete"].items():
             enum_complete[name] = enum_complete.get(name, True) and c
-        if r["failure"]:
-            failures.append(r["failure"])
+        failures.extend(r["failures"])
         canaries.extend(r["canaries"])
 
     sample_list = [{"labels": list(k), "case": v} for k, v in list(samples.items())[:8]]
